@@ -59,7 +59,7 @@ def past_reach(f):
     return sub
 
 
-def h_delay(f, N, kind='combined', period=None, unit=None, txt=None):
+def h_delay(f, N, kind='combined', period=None, unit=None, txt=None, resets=0):
     """f: formula in SAMPLES (oracle); txt: concrete text if it differs from text(f) (unit spellings)"""
     f = T(f)
     vs = sorted(variables(f))
@@ -69,6 +69,11 @@ def h_delay(f, N, kind='combined', period=None, unit=None, txt=None):
     def body(env):
         A = env.A
         s = _make(kind, 'out = ' + (txt or text(f)), vs, period, unit)
+        for r in range(resets):
+            # the same monitor object was used on other traces before and reset() each time
+            w0 = dt.trace(env, vs, 2 + r, prefix='r%d_' % r)
+            dt.online(s, w0, 2 + r)
+            s.reset()
         w = dt.trace(env, vs, N)
         got = dt.online(s, w, N)
         env.observe('online', got)
@@ -267,6 +272,11 @@ def obligations(tier, rng):
             if h > 7 or h == 0:
                 continue
             out.append(ob('C03', 'delay', 'F3/%d/%s/N=%d' % (i, text(f), h + 3), f=f, N=h + 3))
+    # a pastified monitor re-used after one, two and three reset() calls
+    for f in [('and', ('eventually_t', ('historically', X), 0, 2), ('always_t', ('geq', Y, ('const', 0.0)), 0, 1)), ('eventually_t', ('once', X), 0, 1),
+              ('until_t', X, ('since', Y, X), 0, 1), ('and', ('next', X), ('rise', Y)), ('always_t', ('once_t', X, 0, 1), 1, 2), ('or', ('next', ('prev', X)), ('s_prev', Y))]:
+        for r in (1, 2, 3):
+            out.append(ob('C03', 'delay', 'reused/%s/resets=%d' % (text(f), r), f=f, N=hor(f) + 3, resets=r))
     for f, txt, period, unit in UNIT_CASES:
         h = hor(f)
         out.append(ob('C03', 'delay', 'units/%s/p=%s' % (txt, period), f=f, N=h + 3, txt=txt, period=period, unit=unit))
